@@ -12,9 +12,12 @@
 //	     round), and evaluates to the same value or fails alike in 5 random contexts
 //	  R2 refactor.Template with an identity transformation (one that reports "changed", forcing the reprint, and
 //	     one that reports "unchanged") leaves the value of a template with surrounding text unchanged
-//	  R3 refactor.Template with ContextRefRename(from, to), to fresh: exactly the references named from
-//	     (case-insensitively) are renamed, and the template evaluates as before when `to` is given the value of
-//	     `from` (not checked when from/to is bound by an anonymous function)
+//	  R3 refactor.Template with ContextRefRename(from, to) - to fresh, or the name of an anonymous-function parameter
+//	     of the template, or a path ending in a number: the binding-aware reference list of the output (free names,
+//	     #depth.index for references bound by a parameter; names equal by lower case as in evaluation) is what the
+//	     statement prescribes (exactly the free references named from are renamed and stay free - capture in either
+//	     direction fails, alpha-renaming of parameters does not), every expression of the output parses, and the
+//	     template evaluates as before when what `from` held is found where `to` points
 package main
 
 import (
@@ -906,29 +909,14 @@ func main() {
 	// one correspondence case for refactor.Template
 	addRef := func(tpl string, tops []string, mode int, from, to, out string, hasErr bool) {
 		var vals strings.Builder
-		var fold []string
-		seen := map[string]bool{}
 		excellent.VisitTemplate(tpl, tops, false, func(tt excellent.XTokenType, tok string) error {
 			if tt == excellent.BODY {
 				return nil
 			}
 			if p, err := excellent.Parse(tok, nil); err == nil {
 				p.Visit(func(e excellent.Expression) {
-					switch n := e.(type) {
-					case *excellent.TextLiteral:
+					if n, is := e.(*excellent.TextLiteral); is {
 						vals.WriteString(n.Value.Native())
-					case *excellent.ContextReference:
-						if mode == 2 && strings.ToLower(n.Name) == strings.ToLower(from) && !seen[n.Name] {
-							seen[n.Name] = true
-							fold = append(fold, n.Name)
-						}
-					case *excellent.AnonFunction:
-						for _, a := range n.Args {
-							if mode == 2 && strings.ToLower(a) == strings.ToLower(from) && !seen[a] {
-								seen[a] = true
-								fold = append(fold, a)
-							}
-						}
 					}
 				})
 			}
@@ -937,9 +925,9 @@ func main() {
 		if !utf8.ValidString(vals.String()) || !validInput(out) {
 			return
 		}
-		refSh.Add(fmt.Sprintf("{| r_tops := %s; r_in := %s; r_ln := %s; r_low := %s; r_print := %s; r_mode := %d; r_fold := %s; r_to := %s; r_out := %s; r_err := %s |}",
-			exsx.OptTexts(tops, tops == nil), hx.Str(tpl), exsx.RuneSet(exsx.IsLN, tpl), exsx.RuneMap(unicode.ToLower, tpl, strings.Join(tops, ""), to),
-			exsx.RuneSet(unicode.IsPrint, vals.String()), mode, hx.List(fold, hx.Str), hx.Str(to), hx.Str(out), hx.Bool(hasErr)),
+		refSh.Add(fmt.Sprintf("{| r_tops := %s; r_in := %s; r_ln := %s; r_low := %s; r_print := %s; r_mode := %d; r_from := %s; r_to := %s; r_out := %s; r_err := %s |}",
+			exsx.OptTexts(tops, tops == nil), hx.Str(tpl), exsx.RuneSet(exsx.IsLN, tpl, to, from, out), exsx.RuneMap(unicode.ToLower, tpl, strings.Join(tops, ""), to, from),
+			exsx.RuneSet(unicode.IsPrint, vals.String()), mode, hx.Str(from), hx.Str(to), hx.Str(out), hx.Bool(hasErr)),
 			map[string]any{"template": tpl, "mode": mode, "from": from, "to": to}, map[string]any{"out": out, "err": hasErr})
 	}
 
